@@ -109,6 +109,10 @@ def run_case(case):
         th2 = dict(th)
         th2[n] = alt
         modes.append((f"override:{n}", zoo.make(fam, th2), (), {n: th[n]}))
+        # the same single override given POSITIONALLY, with None placeholders before it ("use the instance's value")
+        k_ = names.index(n)
+        if k_ > 0:
+            modes.append((f"override_pos:{n}", zoo.make(fam, th2), tuple([None] * k_ + [th[n]]), {}))
 
     base = {}
     for mode, inst, args, kwargs in modes:
